@@ -1,6 +1,6 @@
 (* Model/Solvers.v — transcription of
-     spindalis/src/solvers/bisection.rs   (bisection,             as of e42ded6)
-     spindalis/src/solvers/nrm.rs         (newton_raphson_method, as of b6ae3a9)
+     spindalis/src/solvers/bisection.rs   (bisection,             as of 8dfb6bc)
+     spindalis/src/solvers/nrm.rs         (newton_raphson_method, as of 8dfb6bc)
    Definitions only; polymorphic in [Num T].
 
    Both Rust functions are `loop { body; if exit { break }; ... }` with an
@@ -33,8 +33,13 @@ Section Solvers.
   (* ------------------------------ bisection ------------------------------- *)
   Record bounds := { b_lower : T; b_init : T; b_upper : T }.
 
+  (* approx_err: [None] is f64::INFINITY (assigned when the new x_curr is 0, as of 8dfb6bc);
+     `approx_err.abs() < error_tol` is false for it whatever the tolerance (inf and NaN included) *)
+  Definition err_small (e : option T) (tol : T) : bool :=
+    match e with Some v => nltb (nabs v) tol | None => false end.
+
   (* the Rust locals; [bs_exact] is the per-iteration flag `exact` *)
-  Record bstate := { bs_iter : nat; bs_lower : T; bs_upper : T; bs_x : T; bs_err : T; bs_exact : bool }.
+  Record bstate := { bs_iter : nat; bs_lower : T; bs_upper : T; bs_x : T; bs_err : option T; bs_exact : bool }.
 
   (* x_curr < lower_bound || x_curr > upper_bound *)
   Definition init_out (b : bounds) : bool :=
@@ -44,8 +49,8 @@ Section Solvers.
   Definition bis_body (f : T -> res T) (tol : T) (itermax : nat) (s : bstate) : res (bstate * bool) :=
     let old := bs_x s in
     let x := ndiv (nadd (bs_lower s) (bs_upper s)) ntwo in
-    (* stale when the midpoint is 0; division by the signed x_curr *)
-    let err := if nneb x n0 then nmul (ndiv (nabs (nsub x old)) x) c100 else bs_err s in
+    (* division by the signed x_curr; INFINITY when the midpoint is 0 *)
+    let err := if nneb x n0 then Some (nmul (ndiv (nabs (nsub x old)) x) c100) else None in
     let* vl := f (bs_lower s) in
     let* vm := f x in
     let test := nmul vl vm in
@@ -56,9 +61,9 @@ Section Solvers.
         {| bs_iter := bs_iter s; bs_lower := x; bs_upper := bs_upper s; bs_x := x; bs_err := err; bs_exact := false |}
       else
         {| bs_iter := bs_iter s; bs_lower := bs_lower s; bs_upper := bs_upper s;
-           bs_x := if neqb vl n0 then bs_lower s else x; bs_err := n0; bs_exact := true |} in
+           bs_x := if neqb vl n0 then bs_lower s else x; bs_err := Some n0; bs_exact := true |} in
     (* exact || (iter > 0 && approx_err.abs() < error_tol) || iter >= itermax *)
-    Ok (s', bs_exact s' || (Nat.ltb 0 (bs_iter s) && nltb (nabs (bs_err s')) tol) || Nat.leb itermax (bs_iter s)).
+    Ok (s', bs_exact s' || (Nat.ltb 0 (bs_iter s) && err_small (bs_err s') tol) || Nat.leb itermax (bs_iter s)).
 
   Definition bs_next (s : bstate) : bstate :=          (* iter += 1 *)
     {| bs_iter := S (bs_iter s); bs_lower := bs_lower s; bs_upper := bs_upper s;
@@ -78,7 +83,7 @@ Section Solvers.
 
   Definition bis_start (b : bounds) : bstate :=
     {| bs_iter := 0; bs_lower := b_lower b; bs_upper := b_upper b; bs_x := b_init b;
-       bs_err := c100; bs_exact := false |}.
+       bs_err := Some c100; bs_exact := false |}.
 
   (* the loop, the cap test and the residual gate *)
   Definition bisect_run (f : T -> res T) (b : bounds) (tol : T) (itermax : nat) : res T :=
@@ -92,7 +97,7 @@ Section Solvers.
     if init_out b then Err EXInitOutOfBounds else bisect_run f b tol itermax.
 
   (* --------------------------- Newton-Raphson ----------------------------- *)
-  Record nstate := { ns_iter : nat; ns_x : T; ns_old : T; ns_err : T }.
+  Record nstate := { ns_iter : nat; ns_x : T; ns_old : T; ns_err : option T }.
 
   Definition nr_body (f f' : T -> res T) (tol : T) (itermax : nat) (s : nstate) : res (nstate * bool) :=
     let old := ns_x s in
@@ -100,13 +105,13 @@ Section Solvers.
     let* d := f' old in
     let x := nsub old (ndiv v d) in
     let it := S (ns_iter s) in
-    let err1 := if nneb x n0 then nmul (ndiv (nabs (nsub x old)) x) c100 else ns_err s in
+    let err1 := if nneb x n0 then Some (nmul (ndiv (nabs (nsub x old)) x) c100) else None in
     (* x_curr.is_finite() && polynomial.eval_univariate(x_curr)? == 0.0   (short circuit) *)
     let* err2 := (if nfinite x then
-                    (let* vx := f x in Ok (if neqb vx n0 then n0 else err1))
+                    (let* vx := f x in Ok (if neqb vx n0 then Some n0 else err1))
                   else Ok err1) in
     Ok ({| ns_iter := it; ns_x := x; ns_old := old; ns_err := err2 |},
-        nltb (nabs err2) tol || Nat.leb itermax it).
+        err_small err2 tol || Nat.leb itermax it).
 
   Fixpoint nr_loop (f f' : T -> res T) (tol : T) (itermax : nat) (fuel : nat) (s : nstate) : res nstate :=
     match nr_body f f' tol itermax s with
@@ -120,7 +125,7 @@ Section Solvers.
     | Panic w => Panic w
     end.
 
-  Definition nr_start (x0 : T) : nstate := {| ns_iter := 0; ns_x := x0; ns_old := x0; ns_err := c100 |}.
+  Definition nr_start (x0 : T) : nstate := {| ns_iter := 0; ns_x := x0; ns_old := x0; ns_err := Some c100 |}.
 
   (* argument order of the Rust function: x_init, itermax, error_tol *)
   Definition nrm (f f' : T -> res T) (x0 : T) (itermax : nat) (tol : T) : res T :=
